@@ -174,6 +174,7 @@ func Load(repo string, overlay map[string][]byte) (*Prog, error) {
 		}
 	}
 	sort.Slice(p.AllFuncs, func(i, j int) bool { return p.AllFuncs[i].String() < p.AllFuncs[j].String() })
+	computeRenames(p)
 	p.LoadSecs = time.Since(t0).Seconds()
 	return p, nil
 }
@@ -185,6 +186,25 @@ func (p *Prog) Pkg(rel string) *ssa.Package {
 
 // Func resolves "rel/pkg.Name" or "rel/pkg.(*T).Name" / "rel/pkg.(T).Name" to an SSA function with a body.
 func (p *Prog) Func(rel, name string) *ssa.Function {
+	if f := p.funcByName(rel, name); f != nil {
+		return f
+	}
+	// the recorded function may carry a new name (renames.go)
+	full := ModPath + "/" + rel + "." + name
+	if strings.HasPrefix(name, "(") {
+		if i := strings.Index(name, ")"); i > 0 {
+			recv := name[1:i]
+			star := ""
+			if strings.HasPrefix(recv, "*") {
+				star, recv = "*", recv[1:]
+			}
+			full = "(" + star + ModPath + "/" + rel + "." + recv + ")" + name[i+1:]
+		}
+	}
+	return restored[full]
+}
+
+func (p *Prog) funcByName(rel, name string) *ssa.Function {
 	sp := p.Pkg(rel)
 	if sp == nil {
 		return nil
@@ -242,7 +262,7 @@ func (p *Prog) InstrPos(in ssa.Instruction) string {
 
 // FuncName returns a short, stable name for a module function: pkgrel.(*T).M or pkgrel.F
 func FuncName(f *ssa.Function) string {
-	s := f.String()
+	s := recordedString(f.String())
 	s = strings.ReplaceAll(s, ModPath+"/", "")
 	return s
 }
